@@ -218,6 +218,9 @@ var keyEntryMenu = []refmodel.EncKey{
 	{Type: 0, Data: cryptoKey("ek0", 1, 256, 0)},
 	{Type: 5, Data: refmodel.Fill("ek5", 1, 32)},
 	{Type: 0x1234, Data: refmodel.Fill("ekx", 1, 7)},
+	{Type: 4, Data: refmodel.Fill("ek4long", 1, 64)},  // known type, length other than the table's
+	{Type: 5, Data: refmodel.Fill("ek5full", 1, 832)}, // ML-KEM-512 hybrid announced at its full length
+	{Type: 0, Data: refmodel.Fill("ek0short", 1, 1)},
 }
 
 func encKeys(c *choose.Ctx) []refmodel.EncKey {
